@@ -8,12 +8,14 @@
       [TInv o P off ws]  (Spec/TailBitmapInv.v)    the invariant of DESIGN section 6 for the exported fields;
       [tb_end off ws := off + 64*len(ws)]          the end of the stored words.
     No bound on the length of the history, on the number of words or on the indices: arithmetic is
-    unbounded [Z] (size hypothesis of DESIGN section 3: Go's int64 agrees while |o|, |idx| stay far below
-    2^63, which no allocatable history can leave). *)
+    unbounded [Z].  That Go's int64 arithmetic agrees is a theorem too (C15_int64_agrees, at the end of
+    this file: any int64 offset, indices away from the last word of the int64 range), and the one place
+    where it does not is exhibited (C15_int64_top_word_refuted). *)
 From Coq Require Import ZArith List Bool Lia.
 From Low Require Import Lib.Bits Lib.BitSeq Model.TailBitmap Spec.TailBitmapSpec Spec.TailBitmapInv
   Spec.TailBitmapObs Proofs.TailBitmapProofs Proofs.TailBitmapHist Proofs.TailBitmapChecker
   Proofs.TailBitmapSound Proofs.TailBitmapLiteral Proofs.TailBitmapWords Run.C15.
+From Low Require Import Lib.MachInt Model.TailBitmapI64 Proofs.TailBitmapI64Proofs Proofs.TailBitmapI64Checker.
 From Low Require Model.BitmapOf.
 Import ListNotations.
 Open Scope Z_scope.
@@ -190,6 +192,14 @@ Theorem C15_literal_head_after_Compact : forall off ws r0 ops s rs, off mod 64 =
 Proof. exact lit_head_after_Compact. Qed.
 Print Assumptions C15_literal_head_after_Compact.
 
+(** In ANY state, Compact, and a Set into the first stored word (which runs Compact), leave a first
+    word that is not all-ones. *)
+Theorem C15_head_after_Compact_or_Set_into_first_word :
+  (forall s, head_ok (Words (Compact s))) /\
+  (forall s idx s', Offset s <= idx < Offset s + 64 -> Set_ s idx = Some s' -> head_ok (Words s')).
+Proof. exact (conj Compact_head Set_head). Qed.
+Print Assumptions C15_head_after_Compact_or_Set_into_first_word.
+
 (** Get1 / Get = membership (below Offset, stored in the literal, or set since) below the end. *)
 Theorem C15_literal_Get_is_membership : forall off ws r0 ops s rs j (m : bool), off mod 64 = 0 -> words_ok ws ->
   run (mkTB off ws r0) ops = Some (s, rs) ->
@@ -211,6 +221,13 @@ Theorem C15_literal_checker_accepts_model : forall off ws ps l,
   model_literal off ws ps = OOk l -> check_literal off ws ps l = true.
 Proof. exact model_literal_accepted. Qed.
 Print Assumptions C15_literal_checker_accepts_model.
+
+(** ... and decides the Prop-level property [lit_obs_ok] (Spec/TailBitmapObs.v) of an observed history. *)
+Theorem C15_literal_checker_decides_property : forall off ws ps obs, off mod 64 = 0 -> words_ok ws ->
+  Forall (fun ob => words_ok (snd (fst ob))) obs ->
+  (check_literal off ws ps obs = true <-> lit_obs_ok off ws ps obs).
+Proof. exact check_literal_iff. Qed.
+Print Assumptions C15_literal_checker_decides_property.
 
 (** WIDENED (2): the exported Words read with the plain bitmap functions (Model/BitmapOf.v).
     In ANY state, for any j >= Offset, bitmap.Get / Get1 on Words at j - Offset are the same reads as
@@ -290,3 +307,51 @@ Example C15_words_nonvacuous :
   check_words 64 (hist_after [] [PSetUp 64 128; PSet 200]) [200; 201; 256]
     [[2^8; 2^8; 1; 1; 2^8; 1]; [0; 0; 0; 0; 0; 0]; [0; 0]] = true.
 Proof. split; vm_compute; reflexivity. Qed.
+
+(** ------------------------------------------------------------------------------------------------
+    WIDENED (3): Go's int64 arithmetic, instead of the size hypothesis of DESIGN section 3.
+    [run64] (Model/TailBitmapI64.v) wraps every int64 operation of the source that can leave the range
+    ([idx - Offset], [Offset += 64], [Offset - reclaimed]).  For ANY int64 initial offset it equals the
+    unbounded model on every history whose indices are int64, at most 2^61 - 64 above [o], and (for
+    Set) below the last 64-bit word of the int64 range -- so all theorems above hold of the int64
+    code on those histories. *)
+Theorem C15_int64_agrees : forall o ops, in_i64 o -> o <= 2^63 - 1 -> Forall (abs_op o) ops ->
+  run64 (NewTailBitmap o) ops = run (NewTailBitmap o) ops.
+Proof. exact reach64_eq. Qed.
+Print Assumptions C15_int64_agrees.
+
+(** The excluded case is a genuine failure of the property for an in-range offset and in-range
+    indices: NewTailBitmap(MaxInt64 - 63) and its 64 positions set one by one.  [Offset += 64] wraps to
+    MinInt64 (Offset DEcreases, below o) and Get/Get1 of a position that was set panic.  Replayed on
+    the real code: docs/selftest-C15.md ("int64 boundary"). *)
+Theorem C15_int64_top_word_refuted :
+  let o := 2^63 - 64 in
+  let ops := map OSet (zrange_up o 64) in
+  o mod 64 = 0 /\ in_i64 o /\ Forall (fun p => match p with OSet j => in_i64 j | _ => True end) ops /\
+  exists s rs, run64 (NewTailBitmap o) ops = Some (s, rs) /\
+    Offset s = - 2^63 /\ Offset s < o /\ Words s = [] /\
+    Get1_64 s (2^63 - 1) = None /\ Get64 s (2^63 - 1) = None.
+Proof. exact top_of_range_witness. Qed.
+Print Assumptions C15_int64_top_word_refuted.
+
+(** The checker accepts the int64 model on the domain of the protocol operation bitmap.TailBitmap/int64
+    (any int64 offset; Set indices below the last word of the range and less than 2^22 above Offset). *)
+Theorem C15_int64_checker_accepts_model : forall o ps l,
+  model_history64 o ps = OOk l -> check_history o ps l = true.
+Proof. exact model_history64_accepted. Qed.
+Print Assumptions C15_int64_checker_accepts_model.
+
+(** non-vacuity of the agreement: the second-to-last word of the int64 range, filled and compacted *)
+Example C15_int64_nonvacuous :
+  let o := 2^63 - 128 in
+  in_i64 o /\ Forall (abs_op o) (map OSet (zrange_up o 64) ++ [OGet1 (2^63 - 65)]) /\
+  exists s rs, run64 (NewTailBitmap o) (map OSet (zrange_up o 64) ++ [OGet1 (2^63 - 65)]) = Some (s, rs) /\
+               Offset s = 2^63 - 64 /\ Words s = [] /\ nth_error rs 64 = Some 1.
+Proof.
+  cbv zeta. split; [unfold in_i64; lia|]. split.
+  - apply Forall_app. split.
+    + apply Forall_forall. intros p Hp. apply in_map_iff in Hp. destruct Hp as (j & <- & Hj).
+      apply zrange_up_In in Hj. cbn [abs_op]. unfold in_i64. lia.
+    + constructor; [cbn [abs_op]; unfold in_i64; lia|constructor].
+  - eexists. eexists. split; [vm_compute; reflexivity|]. vm_compute. auto.
+Qed.
